@@ -7,6 +7,15 @@ observed: `TPMetricsAph().get_value(result)`, `result.heading_error[2]`, and `Ap
 Model side: `PEval.Heading` on exact half-turns τ (π ↦ 1).  One *case* is one physical pair; it is
 *rendered* several times (frame × sign of each quaternion × roles swapped) – every rendering is compared
 with the model, and the oracle demands that all renderings tell the same story (1 − d/π, |err| = d).
+
+"The yaw error reported for a pair" is reported at a second public place: the analysis tool.  `analyzer` cases put
+many physical pairs (estimate and ground truth at the same spot, yaws τe·π / τg·π, each orientation as q or −q) into
+frames evaluated by a real `PerceptionEvaluationManager` in BASE_LINK or MAP, hand the frame results to a real
+`PerceptionAnalyzer3D` and read `calculate_error("yaw")` for every paired row (TP and FP pairs alike): the same
+oracle (range [−π, π], magnitude d) applies – also to the `error_yaw` column of `PerceptionAnalyzer3DField`
+(`add_error_columns()`, both rows of a pair); the model (`analyzerYawError`, the two masked wrap assignments) is
+compared value by value, and the sign-free yaw statistics of `summarize_error()` (max, min, rms over the pairs) are
+compared with the ones computed from the model's errors.
 """
 from __future__ import annotations
 
@@ -31,7 +40,10 @@ RULE = (
     "plus the full 16-fold rendering of the k/8 grid; on top (both tiers, seeded): random pairs of the k/64 grid, "
     "random rationals with denominators up to 10^9, the boundary family τg = τe ± 1 (d = π) and its neighbours at "
     "distance 1e-3 … 1e-13, near-equal yaws, and pairs with roll/pitch up to ±1e-3 rad on the Python side only "
-    "(tolerance 1e-6, labelled rp). The ego pose of the MAP rendering has a random yaw τ0 ∈ (−1,1] (grid k/64) and a "
+    "(tolerance 1e-6, labelled rp); analyzer cases (the yaw error column of PerceptionAnalyzer3D): EVERY pair of the k/8 grid (quick) / "
+    "k/16 grid (thorough) with rotating quaternion signs, in BASE_LINK and in MAP, 64 pairs per evaluated frame, plus frames of random "
+    "k/64 / rational pairs, seam pairs (yaws on both sides of ±π, both orders), d = π and its neighbours, equal yaws; pass/fail thresholds "
+    "such that the pairs are all TP or a mixture of TP and FP pairs. The ego pose of the MAP rendering has a random yaw τ0 ∈ (−1,1] (grid k/64) and a "
     "random dyadic translation. A case is non-trivial when it has a ground truth (all but the 'nogt' cases); "
     "distinct = distinct (τe, τg, τ0, translation, renderings, roll/pitch)."
 )
@@ -42,6 +54,8 @@ THEOREMS = [
         "aphWeight_range", "frame_invariant", "headingError_range", "headingError_abs_eq_d", "headingError_congr",
         "headingError_boundary", "headingError_antisymm", "headingError_frame_invariant",
         "aphWeight_eq_one_sub_abs_error", "wrapYaw_dom", "preFix_not_minimal", "preFix_not_sign_invariant",
+        "analyzerYawError_eq_headingError", "analyzerYawError_range", "analyzerYawError_abs_eq_d", "analyzerYawError_antisymm",
+        "wrapYaw_roundtrip", "analyzerYawError_frame_invariant", "saturating_not_minimal",
     ]
 ]
 TRUSTED = [
@@ -50,6 +64,8 @@ TRUSTED = [
     "pyquaternion/numpy: Quaternion(matrix=R0·R) has yaw = yaw(R0) + yaw(R) mod 2π for pure-yaw rotations (angle addition ↔ "
     "rotation composition, DESIGN 4.2; the model adds half-turns and wraps into (−1,1])",
     "float(τ)·π is the real yaw handed to the code; τ itself (exact rational) is handed to the model",
+    "pandas: the rows of PerceptionAnalyzer3D.get_pair_results(df) are aligned (ground truth i belongs to estimate i) and "
+    "calculate_error returns one value per row in that order (pairs are identified by the uuids of the two rows)",
 ]
 ASSUMPTIONS = [
     "orientations are pure yaw (the model is yaw-only); roll/pitch ≤ 1e-3 rad are exercised on the Python side only with "
@@ -122,6 +138,8 @@ def _obj(I, frame, pos, q, uuid):
 
 
 def run_impl(case):
+    if case["kind"] == "analyzer":
+        return _run_analyzer(case)
     I = _I()
     try:
         te = float(Fraction(case["te"])) * PI
@@ -195,9 +213,232 @@ def run_impl(case):
         return {"err": type(e).__name__, "msg": str(e)[:200]}
 
 
+
+# ----------------------------------------------------------------------------- the analyzer's yaw error column
+
+AN_LABELS = ["car", "bicycle", "pedestrian", "motorbike"]
+AN_SPOTS = [(-75.0 + 10.0 * (k % 16), -75.0 + 10.0 * (k // 16)) for k in range(256)]  # 10 m apart: every pair is matched with itself
+
+
+def _run_analyzer(case):
+    """frames of co-located pairs -> real manager -> real PerceptionAnalyzer3D -> yaw error of every paired row"""
+    I = _I()
+    import numpy as np
+    from harness import builders as B
+    from perception_eval.tool import PerceptionAnalyzer3D
+
+    try:
+        frame = case["frame"]
+        m = B.mk_manager({"max_x_position": 200.0, "max_y_position": 200.0}, frame)
+        cfg = m.evaluator_config
+        crit = B.crit_cfg(cfg, AN_LABELS, max_x_position_list=[200.0] * 4, max_y_position_list=[200.0] * 4)
+        pf = B.pf_cfg(cfg, AN_LABELS, [case["thr"]] * 4)
+        t0 = float(Fraction(case["t0"])) * PI
+        n = 0
+        for fi, pairs in enumerate(case["frames"]):
+            e2m = B.ego2map(case["tx"] + 3.5 * fi, case["ty"] - 1.25 * fi, t0) if frame == "map" else B.ego2map(0.0, 0.0, 0.0)
+            t = 1000 * (fi + 1)
+            gts, ests = [], []
+            for te, tg, se, sg in pairs:
+                x, y = AN_SPOTS[n % 256]
+                w, l = case["size"]
+                g = B.mk_obj(x, y, float(Fraction(tg)) * PI, "CAR", 1.0, "base_link", f"g{n}", t, (w, l, 1.5), sign=-1 if sg else 1)
+                e = B.mk_obj(x, y, float(Fraction(te)) * PI, "CAR", 0.9, "base_link", f"e{n}", t, (w, l, 1.5), sign=-1 if se else 1)
+                if frame == "map":
+                    g, e = B.to_map(g, e2m), B.to_map(e, e2m)  # the repository's own rigid motion
+                gts.append(g)
+                ests.append(e)
+                n += 1
+            m.add_frame_result(t, B.mk_frame(t, fi, gts, e2m, history=bool(case.get("history"))), ests, crit, pf)
+        an = PerceptionAnalyzer3D(cfg)
+        an.add(m.frame_results)
+        df = an.df
+        paired = df[df["status"].isin(["TP", "FP", "TN"])]
+        gt_df, est_df = an.get_pair_results(paired)
+        errs = np.asarray(an.calculate_error("yaw"), dtype=float)
+        rows = []
+        if gt_df is not None:
+            gu, eu, st = list(gt_df["uuid"]), list(est_df["uuid"]), list(gt_df["status"])
+            if not (len(gu) == len(eu) == len(errs)):
+                return {"err": "Shape", "msg": f"{len(gu)} ground-truth rows, {len(eu)} estimate rows, {len(errs)} yaw errors"}
+            for g, e, s_, v in zip(gu, eu, st, errs):
+                rows.append({"g": g, "e": e, "st": str(s_), "err": float(v)})
+        summ = an.summarize_error().loc[("ALL", "yaw")]
+        stats = {k: float(summ[k]) for k in ("average", "rms", "std", "max", "min")}
+        # the TP rows alone, through the df argument (the way the tool's own plots call it)
+        tp = df[df["status"] == "TP"]
+        tp_errs = [float(v) for v in np.asarray(an.calculate_error("yaw", df=tp), dtype=float)] if len(tp) else []
+        tg_df, _ = an.get_pair_results(tp) if len(tp) else (None, None)
+        tp_rows = [] if tg_df is None else [{"g": g, "err": v} for g, v in zip(list(tg_df["uuid"]), tp_errs)]
+        res = {"an": rows, "stats": stats, "tp": tp_rows, "n": n}
+        # third public place: the `error_yaw` column of PerceptionAnalyzer3DField (ground-truth row: est − gt, estimate row: gt − est)
+        try:
+            from perception_eval.tool.perception_analyzer3dfield import PerceptionAnalyzer3DField
+
+            fa = PerceptionAnalyzer3DField(cfg)
+            fa.add(m.frame_results)
+            fa.add_additional_column()
+            fa.add_error_columns()
+            fdf = fa.df
+            field = {}
+            for (idx, role), u, v in zip(fdf.index, list(fdf["uuid"]), list(fdf["error_yaw"])):
+                if u is not None and v is not None and not math.isnan(float(v)):
+                    field[str(u)] = float(v)
+            res["field"] = field
+        except Exception as e:  # noqa
+            res["field_err"] = f"{type(e).__name__}: {str(e)[:150]}"
+        return res
+    except Exception as e:  # noqa
+        import traceback
+
+        return {"err": type(e).__name__, "msg": str(e)[:200], "trace": traceback.format_exc()[-800:]}
+    finally:
+        B.cleanup()
+
+
+def _an_pairs(case):
+    """[(uuid number, τe, τg)] of an analyzer case, in construction order"""
+    out, n = [], 0
+    for pairs in case["frames"]:
+        for te, tg, _se, _sg in pairs:
+            out.append((n, Fraction(te), Fraction(tg)))
+            n += 1
+    return out
+
+
+def _an_by_gt(out):
+    return {int(r["g"][1:]): r for r in out["an"]}
+
+
+def _compare_analyzer(case, out, m):
+    if "an" not in out:
+        return f"implementation raised {out.get('err')}: {out.get('msg')}"
+    by = _an_by_gt(out)
+    key = "errM" if case["frame"] == "map" else "err"
+    merrs = []
+    boundary = False
+    for (n, te, tg), mp in zip(_an_pairs(case), m["pairs"]):
+        r = by.get(n)
+        if r is None or r["e"] != f"e{n}":
+            return f"pair {n} (τe={te}, τg={tg}): no paired row g{n}/e{n} in the analyzer's table ({r})"
+        me = float(core.unq(mp[key]))
+        d = float(core.unq(mp["d"]))
+        ie = r["err"] / PI
+        if 1 - d < 1e-12:
+            boundary = True
+            if not abs(abs(ie) - abs(me)) <= TOL:
+                return f"pair {n} (τe={te}, τg={tg}): |analyzer yaw error|/π {abs(ie)!r} != model {abs(me)!r} (boundary)"
+            merrs.append(abs(ie) * PI)
+        else:
+            if not abs(ie - me) <= TOL:
+                return f"pair {n} (τe={te}, τg={tg}): analyzer yaw error/π {ie!r} != model {me!r}"
+            merrs.append(me * PI)
+    if len(by) != len(merrs):
+        return f"{len(by)} paired rows in the analyzer's table, {len(merrs)} pairs were built"
+    if "field" not in out:
+        return f"PerceptionAnalyzer3DField raised {out.get('field_err')}"
+    for (n, te, tg), mp in zip(_an_pairs(case), m["pairs"]):
+        me, d = float(core.unq(mp[key])), float(core.unq(mp["d"]))
+        for u, want in ((f"g{n}", -me), (f"e{n}", me)):  # ground-truth row: est − gt; estimate row: the negative
+            v = out["field"].get(u)
+            if v is None:
+                return f"pair {n}: no error_yaw for row {u} in PerceptionAnalyzer3DField.df"
+            ok = abs(abs(v / PI) - abs(want)) <= TOL if 1 - d < 1e-12 else abs(v / PI - want) <= TOL
+            if not ok:
+                return f"pair {n} (τe={te}, τg={tg}): PerceptionAnalyzer3DField error_yaw/π of row {u} = {v / PI!r} != model {want!r}"
+    # sign-free statistics of the yaw column, from the model's errors
+    want = {"rms": math.sqrt(math.fsum(e * e for e in merrs) / len(merrs)), "max": max(abs(e) for e in merrs), "min": min(abs(e) for e in merrs)}
+    if not boundary:
+        want["average"] = math.fsum(merrs) / len(merrs)
+    for k, v in want.items():
+        if not abs(out["stats"][k] - v) <= 1e-9 * PI:
+            return f"summarize_error()['ALL','yaw'][{k}] = {out['stats'][k]!r}, from the model's errors {v!r}"
+    return None
+
+
+def _oracle_analyzer(case, out):
+    if "an" not in out:
+        return f"the analysis raised {out.get('err')}: {out.get('msg')} {out.get('trace', '')[-300:]}"
+    by = _an_by_gt(out)
+    tp = {int(r["g"][1:]): r["err"] for r in out["tp"]}
+    for n, te, tg in _an_pairs(case):
+        r = by.get(n)
+        if r is None:
+            return f"pair {n}: the analyzer's table has no paired row for ground truth g{n} (estimate and ground truth stand at the same spot)"
+        ye, yg = float(te) * PI, float(tg) * PI
+        d = abs(math.remainder(yg - ye, 2 * PI))
+        fld = out.get("field", {})
+        for where, err in (("calculate_error('yaw')", r["err"]), ("calculate_error('yaw', df=TP rows)", tp.get(n)),
+                           (f"PerceptionAnalyzer3DField error_yaw of row g{n}", fld.get(f"g{n}")),
+                           (f"PerceptionAnalyzer3DField error_yaw of row e{n}", fld.get(f"e{n}"))):
+            if err is None:
+                continue
+            if not (-PI - 1e-12 <= err <= PI + 1e-12):
+                return f"{where}: yaw error {err!r} outside [-pi, pi] (pair {n}: yaw_est={ye!r}, yaw_gt={yg!r}, {case['frame']})"
+            if abs(abs(err) - d) > TOL * PI:
+                return (f"{where}: |yaw error| {abs(err)!r} != d = {d!r} for pair {n} ({r['st']}): yaw_est={ye!r}, yaw_gt={yg!r}, "
+                        f"frame {case['frame']}")
+    return None
+
+
+def _an_case(rng, pairs_per_frame, frame, thr=None, size=None):
+    p0, tx, ty = _pose(rng)
+    return {"kind": "analyzer", "frame": frame, "t0": p0, "tx": tx, "ty": ty, "history": rng.random() < 0.5,
+            "thr": thr if thr is not None else rng.choice([100.0, 100.0, 1.0, 0.5]),
+            "size": size or rng.choice([[1.0, 1.0], [1.0, 1.0], [2.0, 4.0]]),
+            "frames": [[[core.q(te), core.q(tg), se, sg] for te, tg, se, sg in pairs] for pairs in pairs_per_frame]}
+
+
+def _seam_pair(rng):
+    """yaws on the two sides of the ±π seam (raw difference beyond ±π), in either order"""
+    N = rng.choice([64, 64, 1000, 10**6])
+    a = Fraction(rng.randint(N // 2 + 1, N), N)          # in (1/2, 1]
+    b = -Fraction(rng.randint(N // 2 + 1, N - 1), N)     # in (−1, −1/2)
+    return (a, b) if rng.random() < 0.5 else (b, a)
+
+
+def _gen_analyzer(rng, tier):
+    cases = []
+    den = 8 if tier == "quick" else 16
+    grid = [Fraction(k, den) for k in range(-den + 1, den + 1)]
+    allp = [(a, b, (i + j) & 1, ((i + 2 * j) >> 1) & 1) for i, a in enumerate(grid) for j, b in enumerate(grid)]
+    for k in range(0, len(allp), 64):
+        chunk = allp[k:k + 64]
+        for frame in ("base_link", "map"):
+            ch = [(a, b, se ^ (frame == "map"), sg) for a, b, se, sg in chunk]
+            cases.append(_an_case(rng, [ch], frame, thr=100.0 if (k // 64) % 2 == 0 else rng.choice([1.0, 0.5])))
+    for _ in range(10 if tier == "quick" else 40):
+        frames = []
+        for _f in range(rng.choice([1, 2])):
+            ps = []
+            for _p in range(rng.choice([8, 24, 40])):
+                u = rng.random()
+                if u < 0.3:
+                    te, tg = _seam_pair(rng)
+                elif u < 0.5:
+                    te, tg = Fraction(rng.randint(-63, 64), 64), Fraction(rng.randint(-63, 64), 64)
+                elif u < 0.7:
+                    N = rng.choice([7, 360, 1000, 10**6, 10**9])
+                    te, tg = Fraction(rng.randint(-N + 1, N), N), Fraction(rng.randint(-N + 1, N), N)
+                elif u < 0.9:
+                    te = Fraction(rng.randint(-63, 64), 64)
+                    eps = rng.choice([Fraction(0), Fraction(1, 1000), Fraction(1, 10**6), Fraction(1, 2**30), Fraction(1, 10**10)])
+                    tg = _dom(te + 1 + rng.choice([1, -1]) * eps)
+                else:
+                    te = Fraction(rng.randint(-999, 1000), 1000)
+                    tg = _dom(te + rng.choice([0, 1]) * Fraction(1, 10**rng.randint(3, 12)))
+                ps.append((te, tg, rng.randint(0, 1), rng.randint(0, 1)))
+            frames.append(ps)
+        cases.append(_an_case(rng, frames, rng.choice(["base_link", "map"])))
+    return cases
+
 # ----------------------------------------------------------------------------- model side
 
 def model_requests(case, out):
+    if case["kind"] == "analyzer":
+        ps = _an_pairs(case)
+        return [{"op": "analyzer", "t0": case["t0"] if case["frame"] == "map" else "0",
+                 "te": [core.q(te) for _n, te, _tg in ps], "tg": [core.q(tg) for _n, _te, tg in ps]}]
     return [{"op": "pair", "te": case["te"], "tg": case.get("tg"), "t0": case.get("t0", "0")}]
 
 
@@ -211,6 +452,8 @@ def _mkey(f, s):
 
 def compare(case, out, resps):
     m = resps[0]
+    if case["kind"] == "analyzer":
+        return _compare_analyzer(case, out, m)
     if "err" in out and "r" not in out:
         return f"implementation raised {out['err']}: {out.get('msg')}"
     if case["kind"] == "nogt":
@@ -246,6 +489,8 @@ def _names(r):
 
 
 def oracle(case, out):
+    if case["kind"] == "analyzer":
+        return _oracle_analyzer(case, out)
     for k_, dv in enumerate(out.get("derived", []) if isinstance(out, dict) else []):
         if "exc" in dv:
             return f"scoring a derived object raised {dv['exc']}"
@@ -350,6 +595,12 @@ def corpus():
     cs.append(_case(rng, Fraction(0), Fraction(1), ALL16, t0=Fraction(1, 2)))
     cs.append({"kind": "nogt", "te": "1/4", "se": 0, "t0": "0"})
     cs.append({"kind": "nogt", "te": "-3/4", "se": 1, "t0": "0"})
+    # the analyzer's yaw column: pairs across the ±π seam in both orders, opposite, equal, ordinary; both frames
+    seam = [(Fraction(61, 64), Fraction(-61, 64), 0, 0), (Fraction(-61, 64), Fraction(61, 64), 0, 1), (Fraction(3, 4), Fraction(-7, 8), 1, 0),
+            (Fraction(-1, 2) - Fraction(1, 64), Fraction(1, 2) + Fraction(1, 32), 1, 1), (Fraction(1), Fraction(-63, 64), 0, 0),
+            (Fraction(0), Fraction(1), 0, 0), (Fraction(1, 4), Fraction(1, 4), 0, 1), (Fraction(-3, 32), Fraction(3, 32), 1, 0)]
+    for frame in ("base_link", "map"):
+        cs.append(_an_case(rng, [seam], frame, thr=100.0, size=[1.0, 1.0]))
     return cs
 
 
@@ -395,6 +646,8 @@ def generate(rng, tier):
         cases.append(_case(rng, te, tg, ALL16, rp=rp))
     for _ in range(4):
         cases.append({"kind": "nogt", "te": core.q(Fraction(rng.randint(-63, 64), 64)), "se": rng.randint(0, 1), "t0": "0"})
+    # the analysis tool's yaw error column (drawn last: the cases above stay what they were for a given seed)
+    cases += _gen_analyzer(rng, tier)
     return cases
 
 
@@ -403,6 +656,19 @@ def generate(rng, tier):
 def branches(case, out):
     if case["kind"] == "nogt":
         return ["trivial", "nogt"]
+    if case["kind"] == "analyzer":
+        br = ["analyzer", "analyzer:frame:" + case["frame"], f"analyzer:frames:{len(case['frames'])}"]
+        if "an" not in out:
+            return br + ["impl-error:" + str(out.get("err"))]
+        st = {r["st"] for r in out["an"]}
+        br.append("analyzer:rows:" + "+".join(sorted(st)))
+        for n, te, tg in _an_pairs(case):
+            raw = tg - te
+            delta = abs(raw)
+            d = min(delta, 2 - delta)
+            br.append("analyzer:wrap:" + ("-2pi" if raw > 1 else "+2pi" if raw < -1 else "none"))
+            br.append("analyzer:d:" + ("0" if d == 0 else "pi" if d == 1 else "near-pi" if 1 - d < Fraction(1, 10**8) else "interior"))
+        return br
     te, tg, t0 = Fraction(case["te"]), Fraction(case["tg"]), Fraction(case["t0"])
     br = []
     delta = abs(te - tg)
@@ -438,6 +704,22 @@ def branches(case, out):
 
 
 def shrink(case):
+    if case["kind"] == "analyzer":
+        fr = case["frames"]
+        if len(fr) > 1:
+            for i in range(len(fr)):
+                yield dict(case, frames=fr[:i] + fr[i + 1:])
+        for fi, ps in enumerate(fr):
+            if len(ps) > 1:
+                h = len(ps) // 2
+                for sub in (ps[:h], ps[h:]):
+                    yield dict(case, frames=fr[:fi] + [sub] + fr[fi + 1:])
+                if len(ps) <= 8:
+                    for i in range(len(ps)):
+                        yield dict(case, frames=fr[:fi] + [ps[:i] + ps[i + 1:]] + fr[fi + 1:])
+        if case.get("history"):
+            yield dict(case, history=False)
+        return
     if case["kind"] != "pair":
         return
     if case.get("rp"):
